@@ -12,7 +12,7 @@ import ast
 import z3
 
 from pyvc.se import (State, ArrData, ListData, ObjData, Opaque, Ref, Engine, fresh, fresh_fn, fresh_sel, to_real, to_int, I, R, B, USort,
-                     is_z3, Unsupported, z3bool)
+                     is_z3, Unsupported, z3bool, mk_fv)
 from pyvc.unit import se_unit, returns, raises, get_repo
 from pyvc.lib import Lib, as_array, arr_of
 from pyvc import cex
@@ -100,28 +100,67 @@ def unit_indices(which):
     return se_unit(f"labels.{which}.1d", FL, which, None, setup, post, lib_factory=label_lib, inline={"is_labeled"})
 
 
-def unit_is_unlabeled_nan():
+def unit_is_unlabeled_nan(ndim=1):
+    """NaN sentinel, float ndarray of shape (n,) or (n, k): the mask has the same shape and is True exactly at the NaN entries"""
     def setup(E, st):
-        n = z3.Int("n")
-        st.assume(n >= 1)
-        y = ArrData((n,), fresh_sel("y", "f"), "f")
-        E.default_concretize = lambda ev: {"family": "labels", "fn": "is_unlabeled", "sig": "counter-model", "y_float": cex.arr(ev, y)}
-        return {"args": [st.alloc(y), float("nan")], "y": y, "n": n}
+        n, k = z3.Int("n"), z3.Int("k")
+        st.assume(n >= 1, k >= 1)
+        shape = (n,) if ndim == 1 else (n, k)
+        y = ArrData(shape, fresh_sel("y", "f", ndim) if ndim == 2 else fresh_sel("y", "f"), "f")
+        E.default_concretize = lambda ev: {"family": "labels", "fn": "is_unlabeled", "sig": "counter-model", "y_float": cex.arr(ev, y),
+                                           "shape": [cex.ival(ev, d) for d in shape]}
+        return {"args": [st.alloc(y), float("nan")], "y": y, "shape": shape}
 
     def post(E, ctx, outs):
         rets = returns(outs)
         if not rets:
             E.oblige("reaches.return", [], z3.BoolVal(False))
-        j = z3.Int("j")
+        js = [z3.Int("j"), z3.Int("l")][:ndim]
         for o in rets:
             r = arr_of(o.value, o.state)
-            if r is None or r.kind != "b" or r.ndim != 1:
+            if r is None or r.kind != "b" or r.ndim != ndim:
                 E.oblige("returns.boolean_mask", o.state, False)
                 continue
-            E.oblige("ensures.same_length", o.state, to_int(r.shape[0]) == ctx["n"])
+            E.oblige("ensures.same_length" if ndim == 1 else "ensures.same_shape", o.state,
+                     z3.And(*[to_int(a) == to_int(b) for a, b in zip(r.shape, ctx["shape"])]))
+            rng = z3.And(*[z3.And(0 <= j, j < to_int(d)) for j, d in zip(js, ctx["shape"])])
             E.oblige("ensures.marks_exactly_the_NaN_entries", o.state,
-                     z3.ForAll([j], z3.Implies(z3.And(0 <= j, j < ctx["n"]), z3bool(r.sel(j)) == to_real(ctx["y"].sel(j))[0])))
-    return se_unit("labels.is_unlabeled.nan_sentinel", FL, "is_unlabeled", None, setup, post, lib_factory=lambda: label_lib(False))
+                     z3.ForAll(js, z3.Implies(rng, z3bool(r.sel(*js)) == to_real(ctx["y"].sel(*js))[0])))
+    name = "labels.is_unlabeled.nan_sentinel" + ("" if ndim == 1 else "_2d")
+    return se_unit(name, FL, "is_unlabeled", None, setup, post, lib_factory=lambda: label_lib(False))
+
+
+def unit_is_unlabeled_number(ndim=1):
+    """numeric sentinel (a non-NaN float m), float ndarray: the equality branch - the mask has the same shape and is True exactly at
+    the entries equal to m; in particular NaN entries count as LABELED. Assumed: np.append(float array, float).dtype is float64, so
+    that astype(target_type) is the identity on a float64 array (dtype promotion for other dtypes is enumerated by the stand-in)."""
+    def setup(E, st):
+        n, k = z3.Int("n"), z3.Int("k")
+        m = z3.Real("m")
+        st.assume(n >= 1, k >= 1)
+        shape = (n,) if ndim == 1 else (n, k)
+        y = ArrData(shape, fresh_sel("y", "f", ndim) if ndim == 2 else fresh_sel("y", "f"), "f")
+        mv = mk_fv(z3.BoolVal(False), m)
+        E.default_concretize = lambda ev: {"family": "labels", "fn": "is_unlabeled", "sig": "counter-model", "y_float": cex.arr(ev, y),
+                                           "shape": [cex.ival(ev, d) for d in shape], "missing_label": cex.rval(ev, mv)}
+        return {"args": [st.alloc(y), mv], "y": y, "shape": shape, "m": m}
+
+    def post(E, ctx, outs):
+        rets = returns(outs)
+        if not rets:
+            E.oblige("reaches.return", [], z3.BoolVal(False))
+        js = [z3.Int("j"), z3.Int("l")][:ndim]
+        for o in rets:
+            r = arr_of(o.value, o.state)
+            if r is None or r.kind != "b" or r.ndim != ndim:
+                E.oblige("returns.boolean_mask", o.state, False)
+                continue
+            E.oblige("ensures.same_shape", o.state, z3.And(*[to_int(a) == to_int(b) for a, b in zip(r.shape, ctx["shape"])]))
+            rng = z3.And(*[z3.And(0 <= j, j < to_int(d)) for j, d in zip(js, ctx["shape"])])
+            en, ev = to_real(ctx["y"].sel(*js))
+            E.oblige("ensures.marks_exactly_the_entries_equal_to_the_sentinel", o.state,
+                     z3.ForAll(js, z3.Implies(rng, z3bool(r.sel(*js)) == z3.And(z3.Not(en), ev == ctx["m"]))))
+    return se_unit(f"labels.is_unlabeled.number_sentinel_{ndim}d", FL, "is_unlabeled", None, setup, post, lib_factory=lambda: label_lib(False))
 
 
 def unit_is_unlabeled_empty(ndim):
@@ -151,4 +190,5 @@ def unit_is_unlabeled_empty(ndim):
 UNITS = {"is_unlabeled.empty_1d": unit_is_unlabeled_empty(1), "is_unlabeled.empty_2d": unit_is_unlabeled_empty(2),
          "is_labeled.1d": unit_is_labeled(1), "is_labeled.2d": unit_is_labeled(2),
          "unlabeled_indices.1d": unit_indices("unlabeled_indices"), "labeled_indices.1d": unit_indices("labeled_indices"),
-         "is_unlabeled.nan": unit_is_unlabeled_nan()}
+         "is_unlabeled.nan": unit_is_unlabeled_nan(), "is_unlabeled.nan_2d": unit_is_unlabeled_nan(2),
+         "is_unlabeled.number_1d": unit_is_unlabeled_number(1), "is_unlabeled.number_2d": unit_is_unlabeled_number(2)}
